@@ -17,6 +17,13 @@ func geodeticDistAlgo(center [2]float64) (
 			min[1] = r.Min.Y
 			max[0] = r.Max.X
 			max[1] = r.Max.Y
+		} else {
+			// Node rectangles are widened to float32 and can leave the valid
+			// coordinate range by one float32 step (e.g. 90.00001 for an
+			// object at latitude 89.999995). The algorithm below is only a
+			// lower bound for rectangles inside [-180,180] x [-90,90].
+			min[0], max[0] = math.Max(min[0], -180), math.Min(max[0], 180)
+			min[1], max[1] = math.Max(min[1], -90), math.Min(max[1], 90)
 		}
 		return earthRadius * pointRectDistGeodeticDeg(
 			center[1], center[0],
